@@ -40,8 +40,14 @@ def translate(ctx):
 
 
 def _data(ctx):
+    """The parsed sources. If the translation failed (reported by core as a broken obligation) the oracle still
+    needs NIST's raw text: read just that, and mark the generated Coq tables as unusable for this run."""
     if not _DATA:
-        _DATA.update(codata.generate(ctx.repo))
+        try:
+            _DATA.update(codata.generate(ctx.repo))
+        except Exception as e:
+            _DATA.clear()
+            _DATA.update({"raw": {y: codata.read_raw_txt(ctx.repo, y) for y in codata.YEARS}, "gen_failed": repr(e)})
     return _DATA
 
 
@@ -349,8 +355,8 @@ def oracle(data, year, spec, legacy, route, name, out, attr_of=None):
                 if dec_tuple(sp["dvalue"]) != (c, x):
                     return f"alias value {c}E{x} differs from the documented formula in Decimal arithmetic {sp['dvalue']}"
         else:
-            if lab.lower() != low:
-                return f"legacy name carries label {lab!r}"
+            if lab != lg["label14"]:
+                return f"legacy 2014 name carries label {lab!r}, NIST 2014 published {lg['label14']!r}"
             if abs(got - lg["frac14"]) > abs(lg["frac14"]) * Fraction(1, 10 ** 4):
                 return f"legacy 2014 name carries {float(got)!r}, not within 1e-4 of its 2014 value {float(lg['frac14'])!r}"
         return None
@@ -427,6 +433,10 @@ CORPUS = [
     ("CODATA2018", "tuple", "tau mass energy equivalent in MeV"), ("CODATA2018", "get", "{220} lattice spacing of silicon"),
     ("CODATA2014", "attr", "dipmom_au2debye"), ("CODATA2018", "attr", "hartree2aJ"), ("default", "attr", "bohr2angstroms"),
     ("CODATA2014", "tuple", "electron g factor"), ("CODATA2014", "get", "atomic unit of permittivity"),
+    # regression pins for the repaired finding C02-legacy-label-case (fix 3f682e0)
+    ("CODATA2018", "attr", "tau_mass_energy_equivalent_in_MeV", "tau mass energy equivalent in mev"),
+    ("CODATA2014", "attr", "tau_mass_energy_equivalent_in_MeV", "tau mass energy equivalent in mev"),
+    ("CODATA2018", "tuple", "tau mass energy equivalent in MeV"),
 ]
 
 
@@ -447,10 +457,11 @@ def correspond(ctx):
         return corr
     specs = {y: build_spec(data, y) for y in (2014, 2018)}
     legacy = build_legacy_spec(data)
-    reqs = [(c, r, n, (n.lower() if r != "attr" else None)) for c, r, n in CORPUS]
-    for i, (c, r, n, a) in enumerate(reqs):
-        if r == "attr":
-            reqs[i] = (c, r, n, n.lower())
+    # corpus entries: (ctx, route, name) or (ctx, route, attribute, lower-cased constant name the attribute belongs to)
+    reqs = []
+    for ent in CORPUS:
+        c, r, n = ent[:3]
+        reqs.append((c, r, n, ent[3] if len(ent) > 3 else n.lower()))
     reqs += gen_requests(ctx, data, ctxs)
     terms, meta = [], []
     seen = set()
@@ -496,6 +507,9 @@ def correspond(ctx):
                                       "what": f"{k!r} is missing from pc", "observed": None})
     c0 = CORPUS[0]
     corr.sample({"ctx": c0[0], "route": c0[1], "name": c0[2], "impl": impl_call(ctxs[c0[0]][1], c0[1], c0[2])[1].hex()})
+    if data.get("gen_failed"):
+        corr.notes.append("translation failed (" + data["gen_failed"][:200] + "); model not evaluated, oracle only")
+        return corr
     ctx.log(f"{len(terms)} lookups through the implementation; evaluating the model")
     bad, errors = coqrun.eval_bad_indices("C02", ["QV.Common.Outcome", "QV.Common.DecC02", "QV.Model.Constants"], "", "check_case", terms,
                                           shard=1200, ty="Z * route * string * expect")
@@ -560,5 +574,24 @@ TECHNIQUE = ("Coq proofs over tables regenerated from /repo by fail-closed trans
              "expression AST) and a hand-written Gallina model of Python Decimal (prec 28, half-even) and of PhysicalConstantsContext; "
              "exhaustive exact differential correspondence against the implementation")
 DESIGN_REF = "DESIGN.md §6 C02"
-LEVEL_TEXT = ""   # filled below
-LEVEL_NOTE = ""
+LEVEL_TEXT = (
+    "Machine-checked (Coq 8.16.1, no axioms) theorems over Model/Constants.v and tables regenerated from /repo on every run: "
+    "C02_table_is_nist (every row of codata-2014.txt / codata-2018.txt is retrievable in ANY letter case with NIST's name, digits as Decimal, "
+    "unit modulo braces, uncertainty text, and as the mangled attribute), C02_table_is_srd121_json (same against the SRD-121 JSON, units exact), "
+    "C02_no_undocumented_keys (converse), C02_get_case_insensitive / C02_get_upper_lower (for all strings), C02_mangle_is_documented (for all strings) "
+    "and C02_attr_is_mangled_label, C02_alias_definitions and C02_derived_2018_definitions (each of the 27 aliases / 3 derived constants equals, "
+    "digit for digit, its hand-written documented formula evaluated in 28-digit half-even Decimal arithmetic, both sets), "
+    "C02_alias_power_of_ten_sanity (agreement with the same formula in exact rationals to 1e-26), C02_alias_documented_magnitudes (within 1e-5 of "
+    "the numbers printed in the comment block), C02_calorie_joule, C02_renames_2018 (26 renames: old name carries the value NIST 2018 publishes "
+    "under the new name and is within 1e-4 of its 2014 value), C02_legacy_names_retrievable (every 2014 key, any case, is retrievable in 2018), "
+    "C02_legacy_spelling (all 26 legacy entries carry NIST's 2014 spelling as label and attribute; repaired by fix 3f682e0), C02_legacy_tau_attribute. Tied to the code by the translators and by exhaustive, "
+    "exact differential execution over every key x 4 spellings x 4 access routes x 3 context objects; the float form is checked on every value "
+    "against the executable nearest-binary64 specification.")
+LEVEL_NOTE = (
+    "Trusted: Coq kernel + vm_compute; translators harness/translate/codata.py; the hand-written models of Decimal (Common/DecC02.v) and of "
+    "__init__/get (Model/Constants.v), tied by correspondence only; CPython decimal/str/OrderedDict/float(Decimal) and pydantic Datum are modelled, "
+    "not verified. 'float is the nearest double' is not a theorem: it is the executable predicate nearest64_ok evaluated on every float the "
+    "implementation returned, plus an integer-only recomputation in the harness. Exact-Decimal equality of an alias with its documented formula "
+    "depends on the evaluation order chosen for the documented formula (kcalmol2wavenumbers is written 10*4.184/x, not (10/x)*4.184 as the comment "
+    "prints it; the two differ in the 28th digit); the order-independent content is C02_alias_power_of_ten_sanity. Finite-table theorems are by "
+    "vm_compute + forallb_forall; the case-insensitivity and mangling theorems are by induction over all strings. Non-ASCII names are outside the model.")
